@@ -3,6 +3,8 @@
 // Tier K harness module, child of src/call_pattern.rs.
 use super::*;
 #[allow(unused_imports)]
+use crate::{counter, debug, responder::DynResponder};
+#[allow(unused_imports)]
 use crate::alloc::{vec, String, Vec};
 use crate::counter::__verif_counter_h as ch;
 
